@@ -836,9 +836,9 @@ fn register_e1(reg: &mut zverif::Registry) {
     }
     for (ename, e, il, ratio) in [
         ("None", DzEntropy::None, 0u8, 0.8f32),
-        ("HuffmanO1x1,ratio=0.8", DzEntropy::HuffmanO1, 1, 0.8),
-        ("HuffmanO1x1,ratio=1.0", DzEntropy::HuffmanO1, 1, 1.0),
-        ("HuffmanO1x4,ratio=1.0", DzEntropy::HuffmanO1, 4, 1.0),
+        ("HuffmanO1,ratio=0.8,x1", DzEntropy::HuffmanO1, 1, 0.8),
+        ("HuffmanO1,ratio=1.0,x1", DzEntropy::HuffmanO1, 1, 1.0),
+        ("HuffmanO1,ratio=1.0,x4", DzEntropy::HuffmanO1, 4, 1.0),
         ("Fse,ratio=1.0", DzEntropy::Fse, 0, 1.0),
     ] {
         // cache of 1 KiB = one cached record (LruMap capacity 1), min_compression_size 2: "ab"/"zz" take the compress path
